@@ -19,7 +19,7 @@ exec 9>"$CACHE/.lock-$VARIANT"
 flock 9
 if [ -f "$OUT/.ok" ]; then echo "$OUT"; exit 0; fi
 # keep the cache small: at most 2 older entries per variant
-ls -dt "$CACHE"/lib-$VARIANT-* 2>/dev/null | tail -n +3 | xargs -r rm -rf
+ls -dt "$CACHE"/lib-$VARIANT-* 2>/dev/null | tail -n +8 | xargs -r rm -rf
 S=$(mktemp -d "${TMPDIR:-/var/tmp}/pncverif.XXXXXX")
 trap 'rm -rf "$S"' EXIT
 rsync -a --exclude .git "$REPO"/ "$S"/ >&2 || exit 2
